@@ -4,6 +4,7 @@ package seams
 
 import (
 	"github.com/vipnode/vipnode/v2/simhook"
+	"strings"
 	"verif/sim/kernel"
 )
 
@@ -13,7 +14,14 @@ const HooksBuilt = true
 // InstallTxnHook routes the in-transaction yield points of the badger driver
 // (hook H1) to the scheduler, yield class "txn".  One run at a time per process.
 func InstallTxnHook(s *kernel.Sim) {
-	simhook.YieldFn = func(point string) { s.Yield("txn", point) }
+	simhook.YieldFn = func(point string) {
+		if strings.HasPrefix(point, "atomic:") {
+			// inserted by cmd/instrument before an atomic operation of the repository
+			s.Yield("atomic", point)
+			return
+		}
+		s.Yield("txn", point)
+	}
 	s.OnTeardown(func() { simhook.YieldFn = nil })
 }
 
